@@ -8,6 +8,7 @@ import (
 	"math/big"
 
 	ige "github.com/xelaj/mtproto/internal/aes_ige"
+	"github.com/xelaj/mtproto/zverif/freepass"
 	"github.com/xelaj/mtproto/zverif/ref/mtp1"
 	"github.com/xelaj/mtproto/zverif/vr"
 	"github.com/xelaj/mtproto/zverif/vrand"
@@ -54,6 +55,7 @@ func (c ctx) try(site, what string, rep any, f func()) bool {
 
 func main() {
 	run := vr.New("C05", "exploration")
+	freepass.MaybeReplay(run)
 	c := ctx{run}
 	run.Rule("core: keys x IVs x every block count 1..N x 4 plaintext patterns (full product) compared with IGE computed from its definition on crypto/aes; refusal: every length 0..64 not a positive multiple of 16; wrappers: every payload length 0..N x leading-zero class of each nonce x producer (client itself / reference peer with the legal padding, two fillers). temp-key history: every ordered pair of nonce pairs from a 3x3 alphabet x seal/open per step. Every case is distinct; non-trivial = the call under test returned normally and the oracle compared bytes")
 	run.Assume("reference R2 (harness/ref/mtp1) is trusted; it is cross-checked against the repository's shipped test vectors by C03/C05 agreeing on the unchanged tree",
@@ -163,6 +165,7 @@ func main() {
 	}
 	// (c) message-level wrapper
 	ak := authKey()
+	var heldCt, heldCtCopy, heldBack, heldBackCopy []byte
 	for n := 1; n <= M; n++ {
 		id := fmt.Sprintf("Encrypt len=%d", n)
 		rep := map[string]any{"part": "Encrypt", "len": n}
@@ -192,11 +195,21 @@ func main() {
 		k8, iv8 := mtp1.KDF(ak, h[4:20], 8)
 		ct := mtp1.IGEEncrypt(k8, iv8, padded)
 		var back []byte
+		ctCopy := append([]byte{}, ct...)
 		ok = c.try("Decrypt", id, rep, func() { back, err = ige.Decrypt(ct, ak, h[4:20]) })
 		if ok {
 			if err != nil || !bytes.Equal(back, padded) {
 				run.Violation(fmt.Sprintf("Decrypt|differs|residue=%d", n%16), id+": Decrypt of a reference server->client ciphertext is wrong", rep)
 			}
+			if !bytes.Equal(ct, ctCopy) {
+				run.Violation("Decrypt|caller-buffer-modified", id+": Decrypt changed the ciphertext it was given", rep)
+			}
+			// history: what the previous call was given and what it returned stay as they were (the caller may
+			// still hold both, e.g. one read buffer reused for every packet)
+			if heldCt != nil && (!bytes.Equal(heldCt, heldCtCopy) || !bytes.Equal(heldBack, heldBackCopy)) {
+				run.Violation("Decrypt|earlier-call-buffers-changed-by-a-later-call", id+": the ciphertext given to, or the plaintext returned by, the previous Decrypt call changed during this call", rep)
+			}
+			heldCt, heldCtCopy, heldBack, heldBackCopy = ct, ctCopy, back, append([]byte{}, back...)
 		}
 	}
 	// (d) temp-key wrapper
@@ -310,6 +323,7 @@ func main() {
 	}
 	run.Sample(map[string]any{"core": "key#0 iv#0 blocks=3 pattern=equalblocks", "wrapper": "payload len 12 (residue 0), new_nonce with 1 leading zero byte, peer padding 0"})
 	run.Set("bounds", map[string]any{"blocks_max": N, "encrypt_len_max": M, "temp_payload_max": W})
+	freepass.Run(run, run.ID, freepass.Rounds(run))
 	run.Finish()
 }
 
